@@ -410,12 +410,21 @@ func runC12MaxJobs(c *Ctx) {
 			r.note("goroutine-dump detection of callers parked in sync.Cond.Wait does not work with this Go runtime; falling back to bounded waiting (3 ms) for MaxJobsSemaphore quiescence")
 		}
 	}
-	n := 1500
+	n := 2500
 	if c.Thorough {
-		n = 30000
+		n = 40000
 	}
 	reported := 0
+	budget := 25 * time.Second
+	if c.Thorough {
+		budget = 240 * time.Second
+	}
+	t0 := time.Now()
 	for i := 0; i < n; i++ {
+		if time.Since(t0) > budget {
+			r.note("MaxJobsSemaphore: time budget %v used up after %d of %d sequences", budget, i, n)
+			break
+		}
 		mc := mjCase{Limit: 1 + c.Rng.Intn(3), Nmd: 3 + c.Rng.Intn(4)}
 		mc.Ops = genMJOps(c, mc.Nmd, 6+c.Rng.Intn(30))
 		kind, what, ex, _ := checkMJ(c, mc)
